@@ -6,9 +6,9 @@ import json, os, shutil, subprocess, sys, time
 VERIF = os.path.dirname(os.path.dirname(os.path.abspath(__file__)))
 REPO = os.environ.get("VERIF_REPO", "/repo")
 
-if sys.argv[1] in ("--r2", "--r3", "--r4", "--r5", "--r6", "--r7", "--r8"):          # round 2 layout: /tmp/seed2/<group>/out/<i>/{prop.txt,patch.diff,demo.py,notes.txt}
+if sys.argv[1] in ("--r2", "--r3", "--r4", "--r5", "--r6", "--r7", "--r8", "--r9"):          # round 2 layout: /tmp/seed2/<group>/out/<i>/{prop.txt,patch.diff,demo.py,notes.txt}
     grp, n = sys.argv[2], sys.argv[3]
-    wt = {"--r2": f"/tmp/seed2/{grp}", "--r3": f"/tmp/seed3/{grp}", "--r4": f"/tmp/seed4/{grp}", "--r5": f"/tmp/seed5/{grp}", "--r6": f"/tmp/seed6/{grp}", "--r7": f"/tmp/seed7/{grp}", "--r8": f"/tmp/seed8/{grp}"}[sys.argv[1]]
+    wt = {"--r2": f"/tmp/seed2/{grp}", "--r3": f"/tmp/seed3/{grp}", "--r4": f"/tmp/seed4/{grp}", "--r5": f"/tmp/seed5/{grp}", "--r6": f"/tmp/seed6/{grp}", "--r7": f"/tmp/seed7/{grp}", "--r8": f"/tmp/seed8/{grp}", "--r9": f"/tmp/seed9/{grp}"}[sys.argv[1]]
     src = f"{wt}/out/{n}"
     prop = open(f"{src}/prop.txt").read().split()[0].strip(":")
     checks = sys.argv[4:] or [prop]
